@@ -106,6 +106,31 @@ def table_part(chk, rng):
                     r.insert_cell(0, T.mk_cell(("b", None)))
                     if (r2.serialize(), r2.get_values()) != snap2:
                         chk.fail({**case, "clause": "independence", "row": y}, "editing a row changed its clone")
+                        continue
+                    # a clone that moves into another table must not keep a hold on the first one (shared position maps)
+                    from odfdo import Table
+
+                    live_rows = t.get_elements("table:table-row")
+                    r3 = rng.choice([lambda: t.get_rows()[y], lambda: live_rows[rng.randrange(len(live_rows))].clone, lambda: t.get_row(y).clone])()
+                    other = Table("Other")
+                    other.append_row(r3, clone=False)
+                    snap3 = table_fingerprint(t)
+                    r3.repeated = rng.choice([2, 3, 5])
+                    other.append_row(T.mk_row([("c", None)]))
+                    r3.set_value(0, "WW")
+                    if table_fingerprint(t) != snap3:
+                        chk.fail({**case, "clause": "independence", "row": y, "scenario": "clone moved into another table, then repeated"},
+                                 "operations on a row clone living in another table are observable on the table it was cloned from")
+                        continue
+                    try:
+                        probe = [t.get_row(i).get_values() for i in range(len(g.rows))]
+                        hgt = t.height
+                    except Exception as ex:  # noqa: BLE001
+                        chk.fail({**case, "clause": "independence", "row": y, "exception": repr(ex)}, "reading the first table after moving a row clone elsewhere raised")
+                        continue
+                    if hgt != len(g.rows):
+                        chk.fail({**case, "clause": "independence", "row": y, "height": hgt, "expected": len(g.rows)},
+                                 "the height of the table changed after operations on a row clone living in another table")
             else:
                 if not g.rows or not g.ncols:
                     continue
